@@ -521,6 +521,9 @@ type Cand struct {
 	Node uint64
 	Dist float32
 	Pass bool
+	// the documented metric evaluated INDEPENDENTLY of the repository's distance package (RefDist), when HasRef
+	Ref, Tol float64
+	HasRef   bool
 }
 
 // FlatCanon: canonical form of a flat answer (same as Sema.C04.canonical): distance sequence,
@@ -624,6 +627,9 @@ func FlatOracle(limit int, weight *float32, cands []Cand, hits []Hit) string {
 		if math.Float32bits(*h.Dist) != math.Float32bits(c.Dist) && !(*h.Dist == 0 && c.Dist == 0) {
 			return fmt.Sprintf("result %d (%s): reported distance %v (%08x), metric says %v (%08x)", i, h.Id, *h.Dist, math.Float32bits(*h.Dist), c.Dist, math.Float32bits(c.Dist))
 		}
+		if c.HasRef && !(math.Abs(float64(*h.Dist)-c.Ref) <= c.Tol) {
+			return fmt.Sprintf("result %d (%s): reported distance %v, the documented metric evaluated independently (float64 formula, not the repository's distance package) gives %v (rounding tolerance %g)", i, h.Id, *h.Dist, c.Ref, c.Tol)
+		}
 		if i > 0 && *hits[i-1].Dist > *h.Dist {
 			return fmt.Sprintf("result %d is closer than result %d", i, i-1)
 		}
@@ -672,6 +678,114 @@ func ReadStoreState(cfg FlatCfg, d Dump) StoreState {
 		}
 	}
 	return st
+}
+
+// ---- the documented metrics, written here from their definitions (no call into the repository's distance package)
+
+const u32 = 1.0 / (1 << 24) // unit roundoff of float32
+
+func gamma(k int) float64 { return 1.01 * float64(k) * u32 / (1 - float64(k)*u32) }
+
+// float64 value of the metric and the worst-case error of ANY float32 evaluation of it (any summation order, fused or not)
+func refFloatMetric(name string, x, y []float32) (ref, tol float64, ok bool) {
+	n := len(x)
+	switch name {
+	case models.DistanceEuclidean:
+		var s float64
+		for i := range x {
+			d := float64(x[i]) - float64(y[i])
+			s += d * d
+		}
+		return s, gamma(n+3)*s + float64(n+1)*math.Ldexp(1, -148), true
+	case models.DistanceDot, models.DistanceCosine:
+		var s, abs float64
+		for i := range x {
+			p := float64(x[i]) * float64(y[i])
+			s += p
+			abs += math.Abs(p)
+		}
+		t := gamma(n+1)*abs + float64(n+1)*math.Ldexp(1, -148)
+		if name == models.DistanceDot {
+			return -s, t, true
+		}
+		return 1 - s, t + 1.01*u32*math.Abs(1-s), true
+	case models.DistanceHaversine:
+		if n < 2 || len(y) < 2 {
+			return 0, 0, false
+		}
+		const d2r = 0.017453292519943295769236907684886 // pi / 180
+		la1, lo1, la2, lo2 := float64(x[0])*d2r, float64(x[1])*d2r, float64(y[0])*d2r, float64(y[1])*d2r
+		s1, s2 := math.Sin((la1-la2)/2), math.Sin((lo1-lo2)/2)
+		a := s1*s1 + math.Cos(la1)*math.Cos(la2)*s2*s2
+		if a > 1 {
+			a = 1
+		}
+		r := 6371000 * 2 * math.Asin(math.Sqrt(a))
+		return r, math.Abs(r)*math.Ldexp(1, -22) + 1e-3 + 1, true
+	}
+	return 0, 0, false
+}
+
+func popcount(x uint64) int {
+	c := 0
+	for ; x != 0; x &= x - 1 {
+		c++
+	}
+	return c
+}
+
+// RefDist: the distance the property demands, from the definitions: the configured metric; for a trained binary
+// quantiser the bit metric of the two thresholded vectors; for a trained product quantiser the sum over the sub-vectors
+// of the metric between the query's sub-vector and the point's centroid.  ok = false: no reference (non-finite values).
+func (st StoreState) RefDist(query, vec []float32, code []byte) (ref, tol float64, ok bool) {
+	e := st.Cfg
+	fin := func(r, t float64, k bool) (float64, float64, bool) {
+		if !k || math.IsNaN(r) || math.IsInf(r, 0) || math.IsNaN(t) || math.IsInf(t, 0) {
+			return 0, 0, false
+		}
+		return r, t, true
+	}
+	switch e.Quant {
+	case QBinFixed, QBinLearned:
+		if st.Trained {
+			bx, by := BinEncode(query, st.Threshold), BinEncode(vec, st.Threshold)
+			diff, inter, union := 0, 0, 0
+			for i := range bx {
+				diff += popcount(bx[i] ^ by[i])
+				inter += popcount(bx[i] & by[i])
+				union += popcount(bx[i] | by[i])
+			}
+			if e.BitMetric == models.DistanceHamming {
+				return float64(diff), 0, true
+			}
+			if union == 0 {
+				return 0, 0, true
+			}
+			return float64(1 - float32(inter)/float32(union)), 0, true
+		}
+	case QProduct:
+		name := e.Metric
+		if name == models.DistanceCosine {
+			name = models.DistanceEuclidean // product.go: cosine is replaced by (squared) euclidean
+		}
+		if !st.Trained {
+			return fin(refFloatMetric(name, query, vec))
+		}
+		sub := e.Dim / e.NumSub
+		var sum, tsum, abs float64
+		for i := 0; i < e.NumSub; i++ {
+			start := i*e.NumCent*sub + int(code[i])*sub
+			r, t, k := refFloatMetric(name, query[i*sub:(i+1)*sub], st.Centroids[start:start+sub])
+			if !k {
+				return 0, 0, false
+			}
+			sum += r
+			tsum += t
+			abs += math.Abs(r) + t
+		}
+		return fin(sum, tsum+gamma(e.NumSub+1)*abs, true)
+	}
+	return fin(refFloatMetric(e.Metric, query, vec))
 }
 
 // Dist: the distance the property demands for a stored vector: the configured metric, or the
